@@ -414,7 +414,13 @@ messageTypeSwitching:
 func (m *MTProto) tryToProcessErr(e *ErrResponseCode) error {
 	switch e.Message {
 	case "PHONE_MIGRATE_X":
-		newIP, found := m.dclist[e.AdditionalInfo.(int)]
+		dcID, ok := e.AdditionalInfo.(int)
+		if !ok {
+			// server sent literally PHONE_MIGRATE_X, without a number: nothing to migrate to
+			return e
+		}
+
+		newIP, found := m.dclist[dcID]
 		if !found {
 			return errors.Wrapf(e, "DC with id %v not found", e.AdditionalInfo)
 		}
